@@ -8,8 +8,7 @@ import MalVerif.Py.TieMSerialToDict
   `_from_dict` exactly like the full entry `"7": {"type": "Host", "name": "Host:7"}` — anywhere in the document, for
   every heap, language and document (the two loop bodies are equal by computation).
 
-The general tie `_from_dict` ↔ `Ser.fromDoc` (three loops over `add_asset` / `add_association` / `add_attacker`) is not
-proved; see notes/NOTES_mserial.md.
+The general tie `_from_dict` ↔ `Ser.fromDoc` is in `TieMSerialFD*.lean` / `TieMSerialFromDictMain.lean`.
 -/
 namespace MalVerif.PyM.Tie
 open MalVerif MalVerif.PyM MalVerif.PyM.Gen MalVerif.Ser
